@@ -460,7 +460,7 @@ func (c *Ctx) mergeStates(ss []*State) (out []*State) {
 		for _, s := range ss {
 			t, ok := s.Heap[k]
 			if !ok {
-				t = Var("heap0."+sanitize(k), sort)
+				t = Var("heap0."+c.modeTag()+"."+sanitize(k), sort)
 			}
 			terms = append(terms, t)
 		}
